@@ -41,6 +41,17 @@ def judge(src):
     v = RO.check(rep, text)
     if v:
         return v, r       # the report does not reproduce the text: positions inside it mean nothing
+    if "the program is nested too deeply to be analyzed" in r["render"]:
+        # the analysis was abandoned: nothing was inferred, the one restriction found is displayed on every line that has text
+        sp = RO.spans(rep)
+        starts, lines = [0], text.split("\n")
+        for l in lines:
+            starts.append(starts[-1] + len(l) + 1)
+        marked = RO.marked_lines(rep, text)
+        for i, l in enumerate(lines):
+            if l.strip() and i not in marked and not any("nested too deeply" in t and starts[i] <= a and b <= starts[i] + len(l) and b > a for t, a, b in sp):
+                v.append(("restriction-not-shown", f"line {i + 1} of a program nested too deeply to be analysed is not marked"))
+        return v, r
     if "atok" in h:
         # the lines that could not be parsed, read off the text that *was* parsed (the partial parser blanks them),
         # not from the auditor's own bookkeeping
@@ -65,6 +76,10 @@ LAYOUT = [
     "def nada_main():\n    p = Party(name=\"P\")\n    x = SecretInteger(Input(name=\"x\", party=p))\n    z = (x\n\n*\n\nx)\n    w = (1 <\n\n'a')\n    return",
     "from nada_dsl import *\n\ndef nada_main():\n    p = Party(name=\"P\")\n    x = SecretInteger(Input(name=\"x\", party=p))\n"
     "    (q, r) = (lambda v: v, eval(\"x\"))\n    a = b = p.name\n    return [Output(x, \"o\", p)]\n",
+    # helpers used as values (their inferred type is a Callable, not a class)
+    "from nada_dsl import *\n\ndef twice(a: SecretInteger) -> SecretInteger:\n    return a + a\n\ndef nada_main():\n    p = Party(name=\"P\")\n"
+    "    x = SecretInteger(Input(name=\"x\", party=p))\n    g = twice\n    fs = [twice, twice]\n    y = g(x)\n    z = twice\n    return [Output(y, \"o\", p)]\n",
+    "from nada_dsl import *\n\ndef one() -> int:\n    return 1\n\ndef nada_main():\n    k = one\n    ks = [[one]]\n    n = None\n    r = range(3)\n    return []\n",
     # an operator expression continued on the next line, the right operand (or the operator) in column 0
     "from nada_dsl import *\n\ndef nada_main():\n    a = 1\n    nn = 2\n    d = (a +\nnn)\n    e = (a\n+ nn)\n    f = (True and\nnn)\n    g = (a <\nnn)\n    h = (not\nnn)\n    return []\n",
 ]
@@ -73,8 +88,12 @@ LAYOUT = [
 def run(res, tier):
     n = 200 if tier == "quick" else 6000
     rng = R.make("C17")
-    from .c16 import CORPUS
-    sources = [("corpus", s) for s in CORPUS] + [("layout", s) for s in LAYOUT] + [("zoo-entry", s) for s in pysrc.zoo_programs()]
+    from .c16 import CORPUS, _deep
+    # (programs nested too deeply to be analysed have a report too: every line marked, the text intact, the markup nested)
+    too_deep = [_deep("    x = " + "+".join(["1"] * 1500)), _deep("    x = " + "[" * 180 + "]" * 180) + "\nk = 1\n\n\ndef h():\n    return\n",
+                "from nada_dsl import *\nk = " + "-" * 1200 + "1\n\n\ndef nada_main():\n\treturn []\nbroken = = 1\n"]
+    sources = [("corpus", s) for s in CORPUS] + [("layout", s) for s in LAYOUT] + [("too-deep", s) for s in too_deep] + \
+              [("zoo-entry", s) for s in pysrc.zoo_programs()]
     n += len(sources) - len(CORPUS)
     while len(sources) < n + len(CORPUS):
         sources.append(pysrc.generate(rng))
